@@ -424,6 +424,8 @@ class IfExpressionParser:
                 ('||', 2, pyparsing.opAssoc.LEFT,  infixBinaryOp(BinaryBoolOperator))
             ])
 
+        # Do not expand tabs. They must be preserved in string literals.
+        predExpr.parse_with_tabs()
         self.__ifgrammer = predExpr
 
     def parseExpression(self, expression):
